@@ -270,6 +270,16 @@ def f_low_vertex(e, v):
     return getattr(v, "idx", 0) < 3
 
 
+def f_tag_mod3_value(e, v):
+    """Answers with a number (0, 1, 2), not a bool: what counts is its truth value."""
+    return getattr(e, "tag", 0) % 3
+
+
+def f_vertex_itself(e, v):
+    """Answers with the vertex (or None): truthy unless the vertex itself is falsy."""
+    return v if getattr(v, "idx", 0) % 4 else None
+
+
 def _at_least(n):
     """Closure factory: the returned functions share ONE code object but are different filters."""
 
@@ -378,6 +388,8 @@ NB_FILTERS = {
     "falsy_callable": f_falsy_callable,
     "partial": f_partial,
     "reentrant": f_reentrant,
+    "int_valued": f_tag_mod3_value,
+    "object_valued": f_vertex_itself,
 }
 
 
@@ -399,6 +411,11 @@ def g_not_directed(e):
 
 g_falsy_callable = FalsyCallable(2)
 
+
+def g_tag_mod3_value(e):
+    return getattr(e, "tag", 0) % 3
+
+
 FL_FILTERS = {
     "falsy_callable": g_falsy_callable,
     "none": None,
@@ -406,6 +423,7 @@ FL_FILTERS = {
     "reject": g_reject,
     "tagged_edge": g_tagged_edge,
     "not_directed": g_not_directed,
+    "int_valued": g_tag_mod3_value,
 }
 
 
@@ -421,4 +439,8 @@ def r_reject(v):
     return False
 
 
-RES_FILTERS = {"none": None, "accept": r_accept, "even": r_even, "reject": r_reject}
+def r_idx_mod3_value(v):
+    return getattr(v, "idx", 0) % 3
+
+
+RES_FILTERS = {"none": None, "accept": r_accept, "even": r_even, "reject": r_reject, "int_valued": r_idx_mod3_value}
